@@ -91,6 +91,8 @@ class Source:
     Only `.read(n)` is defined."""
     kvc_symbolic = True
 
+    short_reads = False      # weak stream model: read(n) may return fewer bytes than are available (>= 1)
+
     def __init__(self, ctx, segs, avail=None, name="source", faulty=False):
         self.ctx = ctx
         self.segs = list(normalise(segs))
@@ -137,6 +139,12 @@ class Source:
             raise Undecided("read(None)")
         nt = zint(n)
         rem = zint(self.remaining())
+        if self.short_reads:
+            # a raw / non-blocking stream: any number of bytes between 1 and min(n, remaining) (0 only at the end)
+            k = ctx.int_const(ctx.fresh("short_read"), 0)
+            want = z3.If(nt < 0, rem, z3.If(nt <= rem, nt, rem))
+            ctx.assume(z3.And(k <= want, z3.Implies(want > 0, k >= 1)))
+            return self._take(k)
         if ctx.decide(nt < 0):
             return self._take(rem)
         if ctx.decide(nt <= rem):
@@ -559,7 +567,7 @@ def phantom_call(interp, cls, v):
 
 # =============================================================================== models of callables
 def m_len(interp, fr, v):
-    if isinstance(v, SBytes):
+    if isinstance(v, SBytes) or type(v).__name__ == "SByteArray":
         return lower(zint(v.length()))
     if isinstance(v, SSeq):
         return lower(v.n)
@@ -932,6 +940,26 @@ def m_bytes(interp, fr, *args, **kw):
     raise Undecided("bytes() of a symbolic value")
 
 
+class SByteArray(Sym):
+    """a mutable bytearray built by the code under execution"""
+
+    def __init__(self, segs):
+        self.segs = tuple(segs)
+
+    def length(self):
+        return total_len(normalise(self.segs))
+
+
+def m_bytearray(interp, fr, *args):
+    if not args:
+        return SByteArray([])
+    if len(args) == 1 and isinstance(args[0], (SBytes, bytes)):
+        return SByteArray(as_bytes(args[0]))
+    if not _has_sym(args):
+        return bytearray(*args)
+    raise Undecided("bytearray() form not modelled")
+
+
 def m_isfinite(interp, fr, v):
     import math
     if isinstance(v, SOpaque) and v.kind == "float":
@@ -979,6 +1007,7 @@ def base_models():
         datetime.timedelta: m_timedelta,
         divmod: m_divmod,
         bytes: m_bytes,
+        bytearray: m_bytearray,
         __import__("math").isfinite: m_isfinite,
         datetime.timezone.utc.utcoffset: lambda interp, fr, *a: datetime.timedelta(0),
     }
